@@ -89,13 +89,19 @@ func (c *BaseTableMetaCache) Init(ctx context.Context) error {
 // refresh
 func (c *BaseTableMetaCache) refresh(ctx context.Context) {
 	f := func() {
-		if c.db == nil || c.cfg == nil || c.cache == nil || len(c.cache) == 0 {
+		if c.db == nil || c.cfg == nil || c.cache == nil {
 			return
 		}
 
+		// the cache is shared with GetTableMeta and scanExpire
+		c.lock.RLock()
 		tables := make([]string, 0, len(c.cache))
 		for table := range c.cache {
 			tables = append(tables, table)
+		}
+		c.lock.RUnlock()
+		if len(tables) == 0 {
+			return
 		}
 		conn, err := c.db.Conn(ctx)
 		if err != nil {
@@ -112,9 +118,10 @@ func (c *BaseTableMetaCache) refresh(ctx context.Context) {
 		for i := range v {
 			tm := v[i]
 			upperTableName := strings.ToUpper(tm.TableName)
-			if _, ok := c.cache[upperTableName]; ok {
+			if old, ok := c.cache[upperTableName]; ok {
 				c.cache[upperTableName] = &entry{
-					value: tm,
+					value:      tm,
+					lastAccess: old.lastAccess,
 				}
 			}
 		}
